@@ -7,6 +7,7 @@ The verdict is the property's oracle evaluated on the *implementation's* answer.
 import IsoVerif.Model.LspPos
 import IsoVerif.Model.Format
 import IsoVerif.Model.LspState
+import IsoVerif.Gen.LspPicoFacts
 
 open IsoVerif IsoVerif.Util
 
@@ -331,6 +332,9 @@ end FmtDrv
 namespace StateDrv
 open LspState
 
+/-- pico as it is now (regenerated from crates/pico/src/database.rs) -/
+def tracked : Bool := Gen.LspPicoFacts.absentReadIsTracked
+
 def files : List String := ["src/a.ts", "src/b.ts", "src/c.ts"]
 
 def content (s : String) : Option (Option Bytes) :=
@@ -340,47 +344,61 @@ def effStr (v : Srv) : String :=
   "eff" ++ String.join (files.map fun f =>
     s!" {f}=" ++ (match observed v f with | none => "~" | some b => hexEnc b))
 
-def step (v : Srv) (req impl : List String) : Srv × String :=
+/-- driver state: the model server and whether the history contained an on-disk removal -/
+structure DSt where
+  srv : Srv := {}
+  sawRemove : Bool := false
+
+def step (d : DSt) (req impl : List String) : DSt × String :=
+  let v := d.srv
   match req with
   | "case" :: _ => ({}, "-\tok")
   | ["init", a, b, c] =>
     match content a, content b, content c with
     | some a, some b, some c =>
-      if a.isNone && b.isNone && c.isNone then (v, "bad-op\tok") else
+      if a.isNone && b.isNone && c.isNone then (d, "bad-op\tok") else
       let disk : FMap := [("src/a.ts", a), ("src/b.ts", b), ("src/c.ts", c)]
-      (start disk, "ok\tok")
-    | _, _, _ => (v, "bad-op\tok")
+      ({ srv := start disk }, "ok\tok")
+    | _, _, _ => (d, "bad-op\tok")
   | ["open", f, h] =>
     match hexDecode h with
-    | some t => (srvStep v (.didOpen f t), "ok\tok")
-    | none => (v, "bad-op\tok")
+    | some t => ({ d with srv := srvStep tracked v (.didOpen f t) }, "ok\tok")
+    | none => (d, "bad-op\tok")
   | ["change", f, h] =>
     match hexDecode h with
-    | some t => (srvStep v (.didChange f t), "ok\tok")
-    | none => (v, "bad-op\tok")
-  | ["close", f] => (srvStep v (.didClose f), "ok\tok")
+    | some t => ({ d with srv := srvStep tracked v (.didChange f t) }, "ok\tok")
+    | none => (d, "bad-op\tok")
+  | ["close", f] => ({ d with srv := srvStep tracked v (.didClose f) }, "ok\tok")
   | ["write", f, h] =>
     match hexDecode h with
-    | some t => (srvStep v (.diskWrite f t), "ok\tok")
-    | none => (v, "bad-op\tok")
-  | ["remove", f] => (srvStep v (.diskRemove f), "ok\tok")
-  | ["check"] =>
+    | some t => ({ d with srv := srvStep tracked v (.diskWrite f t) }, "ok\tok")
+    | none => (d, "bad-op\tok")
+  | ["remove", f] => ({ srv := srvStep tracked v (.diskRemove f), sawRemove := true }, "ok\tok")
+  | "check" :: _ =>
     -- the answer is computed from the state *before* this check populates the memo table
     let cmp := impl.getLastD ""
     let model := effStr v ++ " " ++ cmp
     let staleNow := files.any (staleVisible v)
     let verdict :=
-      if cmp == "agree" then "ok"
+      if cmp == "agree" || cmp == "bothpanic" then "ok"
       else if cmp.startsWith "nondet:" then "bad:fresh-servers-disagree"
+      else if cmp.startsWith "panic:" then
+        (if d.sawRemove then "bad:panic-after-disk-remove"
+         else "bad:" ++ cmp)
       else if cmp.startsWith "differ:" then
         (if staleNow then "bad:stale-after-first-open" else "bad:stale:" ++ String.ofList (cmp.toList.drop 7))
       else "bad:unparsable-impl-answer"
-    (srvStep v .check, model ++ "\t" ++ verdict)
-  | _ => (v, "bad-op\tok")
+    if cmp.startsWith "panic:" || cmp == "bothpanic" then
+      -- the real server died and the harness restarted it: every open buffer is re-sent
+      let anyOpen := files.any fun f => (v.st.bufs.get f).isSome
+      ({ d with srv := { st := v.st, openCounter := anyOpen, stale := [] } }, model ++ "\t" ++ verdict)
+    else
+      ({ d with srv := srvStep tracked v .check }, model ++ "\t" ++ verdict)
+  | _ => (d, "bad-op\tok")
 
 end StateDrv
 
-def handle (v : LspState.Srv) (fs : List String) : LspState.Srv × String :=
+def handle (v : StateDrv.DSt) (fs : List String) : StateDrv.DSt × String :=
   let (req, impl) := splitArrow fs
   match req with
   | "pos.loc" :: args => (v, PosDrv.loc args impl)
@@ -392,4 +410,4 @@ def handle (v : LspState.Srv) (fs : List String) : LspState.Srv × String :=
   | "fmt.doc" :: args => (v, FmtDrv.doc args impl)
   | _ => StateDrv.step v req impl
 
-def main : IO Unit := runDriverS handle ({} : LspState.Srv)
+def main : IO Unit := runDriverS handle ({} : StateDrv.DSt)
